@@ -718,3 +718,64 @@ pub fn replay_rtu_server(v: &serde_json::Value) -> Vec<(String, String)> {
 fn unused() -> Vec<u8> {
     pdu::rtu_frame(0, &[])
 }
+
+// ---------------------------------------------------------------------------------------------
+// C06 over a real pty: the production RTU server task (open -> session -> reopen)
+// ---------------------------------------------------------------------------------------------
+
+/// every listed single-bit corruption of one request frame is sent over the line: no reply may
+/// come back, and the next intact request must be answered with a CRC-valid frame
+pub fn rtu_crc_over_pty(bit_positions: &[usize]) -> (u64, Vec<(String, String)>) {
+    use rodbus::server::*;
+    let mut problems = vec![];
+    let mut sent = 0u64;
+    let port = PortPath::new();
+    let pty = match open_pty() {
+        Ok(p) => p,
+        Err(e) => return (0, vec![("MACHINERY:pty".into(), e)]),
+    };
+    port.point_to(&pty.slave_path);
+    let map = ServerHandlerMap::single(UnitId::new(1), Coils.wrap());
+    let (handle, task) = create_rtu_server_task(&port.0, SerialSettings::default(), doubling_retry_strategy(Duration::from_millis(10), Duration::from_millis(10)), map, DecodeLevel::nothing());
+    let join = rt().spawn(task.run());
+    let good = rtu_frame(1, &[3, 0, 5, 0, 1]);
+    let want = rtu_frame(1, &[3, 2, 0x01, 0x05]);
+    let ask = |pty: &Pty| -> Result<(), String> {
+        // the port may just be re-opening: retry for a while
+        let deadline = Instant::now() + Duration::from_secs(3);
+        loop {
+            pty.write(&good);
+            match pty.read_n(want.len(), Duration::from_millis(150)) {
+                Ok(b) if b == want => return Ok(()),
+                Ok(b) => return Err(format!("reply {b:?}, expected {want:?}")),
+                Err(b) if !b.is_empty() => return Err(format!("partial reply {b:?}")),
+                Err(_) => {
+                    if Instant::now() > deadline {
+                        return Err("no reply to an intact request".into());
+                    }
+                }
+            }
+        }
+    };
+    if let Err(e) = ask(&pty) {
+        problems.push(("pty-transmit".into(), e));
+    }
+    for bit in bit_positions {
+        let mut bad = good.clone();
+        bad[bit / 8] ^= 1 << (bit % 8);
+        pty.write(&bad);
+        sent += 1;
+        if let Ok(b) = pty.read_n(1, Duration::from_millis(40)) {
+            let more = pty.read_n(6, Duration::from_millis(40)).unwrap_or_else(|x| x);
+            problems.push(("corrupted-frame-answered-over-pty".into(), format!("bit {bit} flipped: the server replied {:?}", [b, more].concat())));
+            break;
+        }
+        if let Err(e) = ask(&pty) {
+            problems.push(("pty-session-not-recovered".into(), format!("after a frame with bit {bit} flipped: {e}")));
+            break;
+        }
+    }
+    let _ = rt().block_on(async { tokio::time::timeout(Duration::from_secs(2), handle.shutdown()).await });
+    join.abort();
+    (sent, problems)
+}
